@@ -428,8 +428,20 @@ func (broker *Broker) recover() (send []sts.Hashed, err error) {
 			nPoll,
 		))
 		var polled []sts.Polled
-		if polled, err = broker.Conf.Validator(pollNow); err != nil {
-			return
+		nErr = 0
+		for {
+			if broker.shouldStopNow() {
+				return
+			}
+			if polled, err = broker.Conf.Validator(pollNow); err != nil {
+				// Giving up here would leave every cached, unconfirmed file
+				// behind for good (unchanged files are not scanned again)
+				broker.error("Recovery poll request failed:", err.Error())
+				nErr++
+				broker.applyErrorBackoff(nErr)
+				continue
+			}
+			break
 		}
 		broker.info("STARTUP: Processing server response ...")
 		for _, f := range polled {
